@@ -12,6 +12,8 @@ CL = {
          "floats as exact reals; K=1 (quick) / K<=3 (thorough); LeakyTanh constructor constants validated numerically (1e-12) for 5 values of max_val; Permute enumerated over all permutations of <=4 elements"),
  "C15": (E2, "the real fit_to_data / train_val_split / get_batches / _add_batch run on fake arrays whose rows are symbolic tags; jax.random.permutation is an uninterpreted bijection per (key, length); z3 proves partition, x/condition pairing, at-most-once use, trailing-remainder-only skipping, no validation leakage, fresh keys and reproducibility for ALL permutations; failures replayed on the real fit_to_data with host callbacks",
          "sizes enumerated (n<=8 quick, n<=14 thorough); contract of jr.permutation / jr.split as stated; list-backed fake arrays"),
+ "C09": (E1, "raw network weights are symbolic and the masks are concrete selects inside the traced jaxpr: forbidden dependencies vanish by constant folding or are refuted by a two-copy z3 query (MAF outputs and transformer parameters, coupling blocks, BNAF Jacobian upper triangle), BNAF diagonal > 0 by structural sign analysis with z3 at the leaves, rank_based_mask on symbolic integer ranks; permitted-dependency completeness by a replayed all-positive witness",
+         "grid bounds in evidence; block masks enumerated exhaustively over small sizes (sizes are their only inputs); weight-norm rows non-degenerate"),
  "C10": (E1, "the cond/body jaxprs of the two while loops of the real _bisection_search are executed ONCE from an arbitrary symbolic state with the function argument bound to an uninterpreted strictly increasing F (F(r)=0): inductive step, exit => |mid-r|<=tol, adaptation invariant + ranking function, glue between loops, returned midpoint; autoregressive driver inspected symbolically; bounded full unrolling cross-check",
          "induction over iteration counts / coordinates stated in DESIGN; floats as reals (tolerances below float resolution excluded); lower<upper precondition"),
  "C11": (E1, "raw (unconstrained) parameters are the symbolic inputs and the constraint functions (softplus, softmax/cumsum, where-masks, weight norm, log_softmax, get_act_scale) are in the traced jaxpr: z3 proves positivity / ordering / normalisation / norm / invertibility for every real raw value, constructor round trips for all valid arguments, and that the recorded eqx.error_if predicates hold exactly on the invalid arguments",
